@@ -17,11 +17,11 @@ PROPS = {
                 rule="broker acts as QoS 0/1/2 sender with MQTT retransmission; non-trivial = at least one broker message reached async_receive; distinct = distinct trace hash"),
     "C05": dict(level=EXPL, quick=30000, thorough=1000000,
                 rule="cancel()/async_disconnect/signals/destruction placed between handler steps; non-trivial = at least one operation completed with operation_aborted; distinct = distinct trace hash"),
-    "C06": dict(level=EXPL, quick=30000, thorough=1000000, extra_sweeps=[("C06x", 32)],
+    "C06": dict(level=EXPL, quick=30000, thorough=1000000, extra_sweeps=[("C06x", (32, 512))],
                 rule="C06x runs: a QoS>0 publish stays unacknowledged across 2^15 .. 2^16 further publishes (serial-number wrap) before a reconnect; non-trivial = some connection carried >= 2 PUBLISH packets of different operations; distinct = distinct trace hash"),
     "C07": dict(level=EXPL, quick=30000, thorough=1000000,
                 rule="non-trivial = the broker's in-flight counter reached the announced Receive Maximum on some connection; distinct = distinct trace hash"),
-    "C08": dict(level=EXPL, quick=24000, thorough=800000, components=["pid_alloc"], extra_sweeps=[("C08x", 2)],
+    "C08": dict(level=EXPL, quick=24000, thorough=800000, components=["pid_alloc"], extra_sweeps=[("C08x", (2, 8))],
                 rule="system runs: non-trivial = >= 3 identifier-carrying packets seen; component: packet_id_allocator vs std::set model over seeded alloc/free histories (each history distinct by hash)"),
     "C09": dict(level=EXPL, quick=30000, thorough=1000000,
                 rule="async_disconnect at seeded instants in every client state; non-trivial = async_disconnect was initiated on a running client; distinct = distinct trace hash"),
